@@ -28,6 +28,9 @@ type C12Case struct {
 	UseVar  bool    `json:"use_var,omitempty"`
 	Mode    int     `json:"mode"`
 	Sibling bool    `json:"sibling,omitempty"`
+	// Owner: "" = declared on the program; "cmd" = declared on the command itself; "wrapper" = declared on a
+	// command that unset the inherited options (the option is then given after the command token)
+	Owner string `json:"owner,omitempty"`
 }
 
 const c12Env = "VERIF_C12_VAR"
@@ -41,7 +44,13 @@ func (c *C12Case) spec() *ProgSpec {
 		p.Root.Opts = append(p.Root.Opts, OptSpec{Kind: KString, Name: "other", DefStr: "o", Env: "VERIF_C12_OTHER"})
 		p.Env["VERIF_C12_OTHER"] = "sib"
 	}
-	p.Root.Cmds = []CmdSpec{{Name: "cmd"}}
+	// further program-level commands whose names are also plausible option values
+	p.Root.Cmds = []CmdSpec{{Name: "cmd"}, {Name: "list"}, {Name: "run"}}
+	if c.Owner != "" {
+		p.Root.Opts = p.Root.Opts[1:]
+		p.Root.Cmds[0].Opts = []OptSpec{o}
+		p.Root.Cmds[0].Unset = c.Owner == "wrapper"
+	}
 	if c.EnvSet {
 		p.Env[c12Env] = string(c.EnvText)
 	}
@@ -154,6 +163,12 @@ func genC12(t *rapid.T) C12Case {
 		}
 	}
 	c.InCmd = rapid.IntRange(0, 3).Draw(t, "incmd") == 0
+	switch rapid.IntRange(0, 7).Draw(t, "owner") {
+	case 0:
+		c.Owner, c.InCmd = "cmd", true
+	case 1:
+		c.Owner, c.InCmd = "wrapper", true
+	}
 	return c
 }
 
@@ -179,7 +194,12 @@ func checkC12(c C12Case, st *evid.Stats) error {
 	case "flag":
 		argv = append(argv, "--opt")
 	}
-	o := &spec.Root.Opts[0]
+	var o *OptSpec
+	if c.Owner != "" {
+		o = &spec.Root.Cmds[0].Opts[0]
+	} else {
+		o = &spec.Root.Opts[0]
+	}
 	envText := string(c.EnvText)
 	envCanon, envValid := validFor(c.Kind, envText)
 	envApplies := c.EnvSet && envText != "" && envValid
@@ -227,7 +247,7 @@ func checkC12(c C12Case, st *evid.Stats) error {
 		if c.CLI != "absent" && wantVal == envCanon {
 			eq = "cli=env"
 		}
-		if st.NT(fmt.Sprintf("%v|%s|%s|%q|%q|%v%v%v%q%s|%v", c.Kind, envClass, c.CLI, envText, c.CLIText, c.DefBool, c.DefInt, c.DefF, c.DefStr, eq, c.InCmd)) {
+		if st.NT(fmt.Sprintf("%v|%s|%s|%q|%q|%v%v%v%q%s|%v%s", c.Kind, envClass, c.CLI, envText, c.CLIText, c.DefBool, c.DefInt, c.DefF, c.DefStr, eq, c.InCmd, c.Owner)) {
 			st.Sample(map[string]interface{}{"kind": c.Kind.String(), "default": o.DefaultCanon(), "env_text": c.EnvText, "argv": Toks(argv), "expect": wantVal, "expect_called_as": wantAs})
 		}
 	}
@@ -238,6 +258,10 @@ func checkC12(c C12Case, st *evid.Stats) error {
 	paths := []string{"prog"}
 	if c.InCmd {
 		paths = append(paths, "prog/cmd")
+	}
+	if c.Owner != "" {
+		paths = []string{"prog/cmd"}
+		st.Class("declared-on:" + c.Owner)
 	}
 	for _, p := range paths {
 		for _, k := range []string{"opt", "alt"} {
@@ -268,7 +292,7 @@ func checkC12(c C12Case, st *evid.Stats) error {
 }
 
 var propC12 = &Prop[C12Case]{ID: "C12", Sub: "precedence",
-	Rule:  "rapid: kind in {Bool,String,Int,Float64 + optional forms} x default x environment text class {unset, empty, valid, valid equal to default, invalid, random bytes} x CLI {absent, --n=v, --n v, alias, flag} x root/inherited-in-command x Var/pointer x mode; three-way precedence table computed by the harness; non-trivial = variable set and non-empty; distinct by (kind, env class, CLI form, texts, default, level)",
+	Rule:  "rapid: kind in {Bool,String,Int,Float64 + optional forms} x default x environment text class {unset, empty, valid, valid equal to default, invalid, random bytes} x CLI {absent, --n=v, --n v, alias, flag} x {declared on the program and given at the root / after a command token, declared on a command, declared on a wrapper command that unset the inherited options} x Var/pointer x mode; the program has further commands whose names are also drawn as option values; three-way precedence table computed by the harness; non-trivial = variable set and non-empty; distinct by (kind, env class, CLI form, texts, default, level)",
 	Gen:   genC12,
 	Check: checkC12,
 }
